@@ -3,7 +3,7 @@
 package socket
 
 // Verification exports of the unexported helpers of sockaddr.go.
-func VerifItod(v uint) string                 { return itod(v) }
-func VerifDtoi(s string) (int, int, bool)     { return dtoi(s, 0) }
-func VerifZoneToInt(zone string) int          { return ip6ZoneToInt(zone) }
-func VerifZoneToString(zone uint32) string    { return ip6ZoneToString(zone) }
+func VerifItod(v uint) string              { return itod(v) }
+func VerifDtoi(s string) (int, int, bool)  { return dtoi(s, 0) }
+func VerifZoneToInt(zone string) int       { return ip6ZoneToInt(zone) }
+func VerifZoneToString(zone uint32) string { return ip6ZoneToString(zone) }
